@@ -95,7 +95,7 @@ theorem osg_keeps (nnc : Bool) (n : Nat) (cs : List Row) (y : FPoly) (hn : y.p.n
   · rw [hnpE]
     have := hcore.permG hp1 y.obtainSortedGeneratorsWithSatG.satC y.obtainSortedGeneratorsWithSatG.satG
       (fun h' => (by cases h'))
-    exact ⟨this.sound, this.complete, this.minC, this.minG, fun _ => hVC2, fun _ => hVG2⟩
+    exact ⟨this.sound, this.complete, this.minC, this.minG, this.minL, fun _ => hVC2, fun _ => hVG2⟩
 
 /-- **the preparation of `process_pending_generators` keeps the pair** -/
 theorem sortKeepsPairG : SortKeepsPairG := by
@@ -150,6 +150,6 @@ theorem sortKeepsPairG : SortKeepsPairG := by
     rw [e]
     refine ⟨by rw [hyp]; exact hfpG, fun r => by rw [hyp], fun r => by rw [hynp], ?_⟩
     rw [hynp, hyC, hyp]
-    exact ⟨E.sound, E.complete, E.minC, E.minG, E.satC, fun _ => hVG⟩
+    exact ⟨E.sound, E.complete, E.minC, E.minG, E.minL, E.satC, fun _ => hVG⟩
 
 end PPLV.PolyFull
